@@ -14,12 +14,12 @@ def gen_atoms(ck):
         for t in itertools.product(range(256), repeat=n):
             out.append(bytes(t))
     alpha = [0x00, 0x01, 0x7f, 0x80, 0xff, 0x22, 0x27, 0x5c, 0x20, 0x28, 0x29, 0x2e, 0x3b, 0x23, 0x30, 0x39, 0x78, 0x58, 0x41, 0x61, 0x2d, 0x7e, 0x09, 0x0a]
+    for t in itertools.product(alpha, repeat=3):
+        out.append(bytes(t))
     if ck.tier == "thorough":
-        for t in itertools.product(range(256), repeat=3):
-            out.append(bytes(t))
-    else:
-        for t in itertools.product(alpha, repeat=3):
-            out.append(bytes(t))
+        for first in (0x00, 0x22, 0x27, 0x5c, 0x7f, 0x80, 0xff):
+            for t in itertools.product(range(256), repeat=2):
+                out.append(bytes((first,) + t))
     printable = [c for c in range(32, 127)]
     names = [b"q", b"a", b"if", b"sha256", b"concat", b"softfork", b"keccak256", b"coinid", b"+", b">s", b"mod", b"list"]
     for _ in range(1500 if ck.tier == "quick" else 20000):
@@ -129,7 +129,7 @@ def run(ck):
                            "text": bytes.fromhex(text).decode("latin1")[:300], "read_back": r[:300]})
     ck.cov["evaluations"] = len(lines) + len(asm_lines) + len(pl) + len(rd) + len(vals)
     ck.cov["distinct_nontrivial"] = len(vals) + len(extra)
-    ck.cov["rule"] = ("atoms: every byte string of length 0..2 (0..3 thorough), a 24-symbol alphabet cubed (quotes, backslash, parens, dot, semicolon, #, digits, x, control), random printable / punctuation / decimal and 0x look-alikes / "
+    ck.cov["rule"] = ("atoms: every byte string of length 0..2 (thorough: also every 3-byte string led by 00 22 27 5c 7f 80 ff), a 24-symbol alphabet cubed (quotes, backslash, parens, dot, semicolon, #, digits, x, control), random printable / punctuation / decimal and 0x look-alikes / "
                       "zero-padded / sign-extended / keyword names; each bare, in head position, in non-head position and as an improper tail, plus random trees; classic pair for operator-set versions 0,1,2; "
                       "modern printer (fixed mode) on converted values and on string / hex leaf spellings with both quote kinds, read back by the modern reader and by the classic assembler")
     ck.cov["samples"] = [vals[700], lines[5][:120], pl[-1][:120]]
